@@ -32,7 +32,7 @@ macro_rules! geom_impl_line_segment {
             pub fn projected_point(self, p: $Vec<T>) -> $Vec<T> where T: Real + Add<T, Output=T> + RelativeEq {
                 let len_sq = self.start.distance_squared(self.end);
 
-                if len_sq.relative_eq(&Zero::zero(), T::default_epsilon(), T::default_max_relative()) {
+                if len_sq.is_zero() {
                     self.start
                 } else {
                     let t = ((p - self.start).dot(self.end - self.start) / len_sq)
